@@ -2,5 +2,127 @@
 //! end of core/src/lib.rs; every harness runs the real crate code.
 #![allow(dead_code, unused_imports, missing_debug_implementations, unreachable_pub, unnameable_types)]
 
+pub(crate) use crate::tags;
+pub(crate) use crate::{
+    Bytes, ChannelCookie, Deserialize, DeserializeError, Deserializer, ObjectCookie, ObjectId,
+    ObjectUuid, ProtocolVersion, Serialize, SerializeError, SerializedValue, SerializedValueSlice,
+    Serializer, ServiceCookie, ServiceId, ServiceUuid, Value, ValueConversionError, ValueKind,
+};
+pub(crate) use uuid::Uuid;
+
+// One *unit* = one file = one `cargo kani` build (selected with `--cfg verif_unit="<name>"`, own
+// target directory). Kani generates code for every harness that is compiled in, at ~8 s per
+// harness for this crate, so a build must contain only the harnesses it is going to run.
+#[macro_use]
+mod macros;
+pub(crate) mod leaf_common;
+pub(crate) mod shape_common;
+
+#[cfg(any(verif_unit = "all", verif_unit = "buf_ext"))]
 mod buf_ext;
-mod leaf;
+#[cfg(any(verif_unit = "all", verif_unit = "leaf_rt"))]
+mod leaf_rt;
+#[cfg(any(verif_unit = "all", verif_unit = "leaf_rt_t"))]
+mod leaf_rt_t;
+#[cfg(any(verif_unit = "all", verif_unit = "leaf_total"))]
+mod leaf_total;
+#[cfg(any(verif_unit = "all", verif_unit = "leaf_total_t"))]
+mod leaf_total_t;
+
+/// `Deserializer::skip` on `b`, started at nesting depth `depth`: result and bytes consumed.
+pub(crate) fn run_skip(b: &[u8], depth: u8) -> (Result<(), DeserializeError>, usize) {
+    let mut rd = b;
+    let r = match Deserializer::new(&mut rd, depth) {
+        Ok(d) => d.skip(),
+        Err(e) => Err(e),
+    };
+    (r, b.len() - rd.len())
+}
+
+/// `Value::deserialize` on `b`.
+pub(crate) fn run_value(b: &[u8], depth: u8) -> (Result<Value, DeserializeError>, usize) {
+    let mut rd = b;
+    let r = match Deserializer::new(&mut rd, depth) {
+        Ok(d) => Value::deserialize(d),
+        Err(e) => Err(e),
+    };
+    (r, b.len() - rd.len())
+}
+
+pub(crate) fn run_len(b: &[u8], depth: u8) -> Result<usize, DeserializeError> {
+    let mut rd = b;
+    match Deserializer::new(&mut rd, depth) {
+        Ok(d) => d.len(),
+        Err(e) => Err(e),
+    }
+}
+
+/// `split_off_serialized_value`: (length of the split-off value, bytes consumed from `b`).
+pub(crate) fn run_split(b: &[u8], depth: u8) -> (Result<usize, DeserializeError>, usize) {
+    let mut rd = b;
+    let r = match Deserializer::new(&mut rd, depth) {
+        Ok(d) => d.split_off_serialized_value().map(|s| {
+            // the split-off slice is a prefix of the input
+            assert!(s.as_ptr() == b.as_ptr());
+            s.len()
+        }),
+        Err(e) => Err(e),
+    };
+    (r, b.len() - rd.len())
+}
+
+/// Structural equality with floats compared bit-for-bit (so NaN payloads count); only the kinds
+/// that the harnesses build (no hash containers).
+pub(crate) fn value_eq_bits(a: &Value, b: &Value) -> bool {
+    match (a, b) {
+        (Value::None, Value::None) => true,
+        (Value::Some(x), Value::Some(y)) => value_eq_bits(x, y),
+        (Value::Bool(x), Value::Bool(y)) => x == y,
+        (Value::U8(x), Value::U8(y)) => x == y,
+        (Value::I8(x), Value::I8(y)) => x == y,
+        (Value::U16(x), Value::U16(y)) => x == y,
+        (Value::I16(x), Value::I16(y)) => x == y,
+        (Value::U32(x), Value::U32(y)) => x == y,
+        (Value::I32(x), Value::I32(y)) => x == y,
+        (Value::U64(x), Value::U64(y)) => x == y,
+        (Value::I64(x), Value::I64(y)) => x == y,
+        (Value::F32(x), Value::F32(y)) => x.to_bits() == y.to_bits(),
+        (Value::F64(x), Value::F64(y)) => x.to_bits() == y.to_bits(),
+        (Value::Uuid(x), Value::Uuid(y)) => x.as_bytes() == y.as_bytes(),
+        (Value::Sender(x), Value::Sender(y)) => x.0.as_bytes() == y.0.as_bytes(),
+        (Value::Receiver(x), Value::Receiver(y)) => x.0.as_bytes() == y.0.as_bytes(),
+        (Value::ObjectId(x), Value::ObjectId(y)) => {
+            x.uuid.0.as_bytes() == y.uuid.0.as_bytes() && x.cookie.0.as_bytes() == y.cookie.0.as_bytes()
+        }
+        (Value::ServiceId(x), Value::ServiceId(y)) => {
+            x.object_id.uuid.0.as_bytes() == y.object_id.uuid.0.as_bytes()
+                && x.object_id.cookie.0.as_bytes() == y.object_id.cookie.0.as_bytes()
+                && x.uuid.0.as_bytes() == y.uuid.0.as_bytes()
+                && x.cookie.0.as_bytes() == y.cookie.0.as_bytes()
+        }
+        (Value::Vec(x), Value::Vec(y)) => {
+            if x.len() != y.len() {
+                return false;
+            }
+            let mut i = 0;
+            while i < x.len() {
+                if !value_eq_bits(&x[i], &y[i]) {
+                    return false;
+                }
+                i += 1;
+            }
+            true
+        }
+        (Value::Bytes(x), Value::Bytes(y)) => x.0 == y.0,
+        (Value::Enum(x), Value::Enum(y)) => x.id == y.id && value_eq_bits(&x.value, &y.value),
+        _ => false,
+    }
+}
+#[cfg(any(verif_unit = "probe"))]
+mod probe;
+#[cfg(any(verif_unit = "all", verif_unit = "shapes_basic"))]
+mod shapes_basic;
+#[cfg(any(verif_unit = "all", verif_unit = "shapes_keys"))]
+mod shapes_keys;
+#[cfg(any(verif_unit = "all", verif_unit = "shapes_struct"))]
+mod shapes_struct;
